@@ -54,6 +54,12 @@ Terminal::Impl::Impl(event::Loop *wp_loop)
 
 Terminal::Impl::~Impl()
 {
+    //! a client typed 'exit' and the program shuts down before the next loop pass:
+    //! the queued task must not run on a destroyed terminal
+    for (auto &item : exit_tasks_)
+        wp_loop_->cancel(item.second);
+    exit_tasks_.clear();
+
     sessions_.foreach(
         [this](SessionContext *s) {
             session_ctx_pool_.free(s);
